@@ -235,6 +235,9 @@ def main(argv):
         if a.prop == "C18":
             from . import c18
             return c18.run(a.tier, seed)
+        if a.prop == "C20":
+            from . import c20
+            return c20.run(a.tier, seed)
         if a.prop == "C17":
             return run_c17(a.tier, seed, a.ops.split(",") if a.ops else None, a.types.split(",") if a.types else None)
         print("unknown property", a.prop)
